@@ -142,7 +142,10 @@ def qtOracle (p : QtParsed) : List String × List String :=
       (fun (v, i) => s!"layout: sheet {i + 1} (same export, other column layout) gives a different result: status {v.obs.status} rows {v.obs.txs.length} errors {v.obs.errs} vs status {obs.status} rows {obs.txs.length} errors {obs.errs}")
     let acts := s.rows.map (classify s)
     let pairs := pairFxts (acts.filter isFxt)
-    let wf := !(acts.any isMalformed) && pairs.isSome
+    -- a well-formed export names each column the converter reads exactly once, in every layout
+    let hdrOk := p.sheets.all (fun q => usedNames.all (fun n => (q.sheet.hdr.filter (· == Cell.str n)).length == 1))
+    let layoutFails := if hdrOk then layoutFails else []
+    let wf := hdrOk && !(acts.any isMalformed) && pairs.isSome
     let acctOk (a : String) : Bool := match o.acct with | some f => f.test a | none => true
     let secOk (x : String) : Bool := match o.sec with | some f => f.test x | none => true
     let trades := acts.filterMap (fun a => match a with
@@ -165,7 +168,7 @@ def qtOracle (p : QtParsed) : List String × List String :=
       s!"acct={match o.acct with | none => "none" | some .any => "any" | some (.sub _) => "sub"}",
       s!"sec={match o.sec with | none => "none" | some .any => "any" | some (.sub _) => "sub"}",
       s!"nofx={if o.noFx then 1 else 0}", s!"nosort={if o.noSort then 1 else 0}",
-      s!"rate={if o.rate.isSome then 1 else 0}"]
+      s!"rate={if o.rate.isSome then 1 else 0}", s!"hdr={if hdrOk then 1 else 0}"]
     let nt := wf && obs.status == "ok" && nTrades ≥ 1
     let tags := (if nt then ["nt=C18"] else ["nt="]) ++ tags
     if !wf then (layoutFails, tags)
